@@ -200,6 +200,7 @@ TYPE_SEQS = [
     (['vector', '<', 'Dimension', '>'], 'vec_Dimension'),
     (['vector', '<', 'NDSize', '>'], 'vec_NDSize'),
     (['vector', '<', 'DataView', '>'], 'vec_DataView'),
+    (['vector', '<', 'DataArray', '>'], 'vec_DataArray'),
     (['NDSizeBase', '<', 'T', '>'], 'NDSize'),
     (['NDSizeBase'], 'NDSize'),
     (['NDSize', '::', 'value_type'], 'ndsize_t'),
@@ -208,7 +209,7 @@ TYPE_SEQS = [
 
 OPT_TYPES = {'opt_ndsize': 'ndsize', 'opt_pair': 'pair', 'opt_double': 'double', 'opt_string': 'string'}
 VEC_TYPES = {'vec_double', 'vec_ndsize', 'vec_string', 'vec_opt_pair', 'vec_pair', 'vec_dpair',
-             'vec_Dimension', 'vec_NDSize', 'vec_int', 'vec_DataView'}
+             'vec_Dimension', 'vec_NDSize', 'vec_int', 'vec_DataView', 'vec_nstr', 'vec_DataArray'}
 STRUCT_TYPES = set(OPT_TYPES) | VEC_TYPES | {'pair_ndsize', 'pair_double', 'NDSize', 'nstring'}
 
 QUALIFIERS = {'std', 'boost', 'nix', 'util', 'base', 'check', 'hdf5', 'h5x'}
@@ -470,6 +471,22 @@ def r_vectors(ctx, toks):
                 out.extend([t, P(acc, ''), Tok('id', 'data', '')]); i += 1; fire(ctx, 'vec-index'); continue
             if i + 1 < n and toks[i + 1].t == '.' and ref:
                 out.extend([t, P('->', '')]); i += 2; fire(ctx, 'ref-arrow'); continue
+        # data member of vector type:  self->m.size() / self->m[i] / self->m.empty()
+        if t.t == 'self' and i + 2 < n and toks[i + 1].t == '->' and toks[i + 2].k == 'id' and member_type(ctx, toks[i + 2].t) in VEC_TYPES:
+            base = [t, toks[i + 1], toks[i + 2]]
+            if i + 6 < n and toks[i + 3].t == '.' and toks[i + 5].t == '(' and toks[i + 6].t == ')' and toks[i + 4].t in ('size', 'empty'):
+                if toks[i + 4].t == 'size':
+                    out.extend(base + [P('.', ''), Tok('id', 'n', '')])
+                else:
+                    out.extend([P('(', t.ws)] + [Tok('id', 'self', '')] + base[1:] + [P('.', ''), Tok('id', 'n', ''), P('=='), Tok('num', '0', ' '), P(')', '')])
+                i += 7; fire(ctx, 'vec-member-' + toks[i - 3].t); continue
+            if i + 3 < n and toks[i + 3].t == '[':
+                out.extend(base + [P('.', ''), Tok('id', 'data', '')]); i += 3; fire(ctx, 'vec-member-index'); continue
+        # call result of vector type:  f(...).size()  ->  f(...).n
+        if t.t == '.' and out and out[-1].t == ')' and i + 3 < n and toks[i + 1].t == 'size' and toks[i + 2].t == '(' and toks[i + 3].t == ')':
+            o = match_open(out, len(out) - 1)
+            if o >= 1 and out[o - 1].k == 'id' and out[o - 1].t in ctx.sigs and ctx.sigs[out[o - 1].t]['ret'] in VEC_TYPES:
+                out.extend([P('.', ''), Tok('id', 'n', '')]); i += 4; fire(ctx, 'vec-size-call'); continue
         out.append(t); i += 1
     # prev(x) -> ((x) - 1)
     res = []; i = 0
@@ -637,7 +654,8 @@ def r_rangefor(ctx, toks):
     return out
 
 VEC_ELEM = {'vec_double': 'double', 'vec_ndsize': 'ndsize_t', 'vec_opt_pair': 'opt_pair', 'vec_pair': 'pair_ndsize',
-            'vec_dpair': 'pair_double', 'vec_int': 'int', 'vec_NDSize': 'NDSize', 'vec_Dimension': 'Dimension'}
+            'vec_dpair': 'pair_double', 'vec_int': 'int', 'vec_NDSize': 'NDSize', 'vec_Dimension': 'Dimension',
+            'vec_nstr': 'nstring', 'vec_DataArray': 'DataArray', 'vec_DataView': 'DataView', 'vec_string': 'nstring'}
 
 def r_pair_ctor(ctx, toks):
     """pair_ndsize(a, b) -> mk_pair_ndsize(a, b)"""
@@ -864,7 +882,7 @@ def r_methods(ctx, toks):
         t = toks[i]
         # self -> m . method (
         if t.t == 'self' and seq_at(toks, i + 1, ['->']) and i + 5 < n and toks[i + 2].k == 'id' and toks[i + 3].t == '.' \
-                and toks[i + 4].k == 'id' and toks[i + 5].t == '(' and member_type(ctx, toks[i + 2].t):
+                and toks[i + 4].k == 'id' and toks[i + 5].t == '(' and member_type(ctx, toks[i + 2].t) and member_type(ctx, toks[i + 2].t) not in VEC_TYPES:
             c = member_type(ctx, toks[i + 2].t)
             e = match_close(toks, i + 5)
             name = '%s_%s' % (c, toks[i + 4].t)
@@ -1260,5 +1278,152 @@ def r_ctor_decl(ctx, toks):
                     out.extend([t, toks[i + 1], P('='), Tok('id', name, ' '), P('(', '')]); out.extend(toks[i + 3:e]); out.append(P(')', ''))
                     ctx.env[toks[i + 1].t] = (t.t, False)
                     i = e + 1; fire(ctx, 'ctor-decl'); continue
+        out.append(t); i += 1
+    return out
+
+
+def _init_type(ctx, rhs):
+    """C type of an initialiser expression whose type is mechanically known, or None"""
+    classes = ctx.unit.get('classes', ())
+    ts = [x.t for x in rhs]
+    # V.begin() / V.end() / V.cbegin()
+    if len(rhs) == 5 and rhs[0].k == 'id' and rhs[0].t in ctx.env and ctx.env[rhs[0].t][0] in VEC_TYPES and ts[1] == '.' and ts[2] in ('begin', 'end', 'cbegin', 'cend') and ts[3:] == ['(', ')']:
+        return VEC_ELEM[ctx.env[rhs[0].t][0]], True
+    # ( * it ) . m ( ... )  with it an iterator over class values
+    if len(rhs) >= 8 and ts[0] == '(' and ts[1] == '*' and rhs[2].k == 'id' and ts[3] == ')' and ts[4] == '.' and rhs[5].k == 'id' and ts[6] == '(' \
+            and match_close(rhs, 6) == len(rhs) - 1 and rhs[2].t in ctx.env and ctx.env[rhs[2].t][1] and ctx.env[rhs[2].t][0] in classes:
+        sg = ctx.sigs.get('%s_%s' % (ctx.env[rhs[2].t][0], rhs[5].t))
+        if sg: return sg['ret'], False
+    iters = getattr(ctx, 'iters', {})
+    if len(rhs) >= 8 and ts[0] == '(' and ts[1] == '*' and ts[2] in iters and ts[3] == ')' and ts[4] == '.' and rhs[5].k == 'id' and ts[6] == '(' and match_close(rhs, 6) == len(rhs) - 1:
+        sg = ctx.sigs.get('%s_%s' % (VEC_ELEM[ctx.env[iters[ts[2]]][0]], rhs[5].t))
+        if sg: return sg['ret'], False
+    if len(rhs) >= 5 and ts[0] in iters and ts[1] == '->' and rhs[2].k == 'id' and ts[3] == '(' and match_close(rhs, 3) == len(rhs) - 1:
+        sg = ctx.sigs.get('%s_%s' % (VEC_ELEM[ctx.env[iters[ts[0]]][0]], rhs[2].t))
+        if sg: return sg['ret'], False
+    # x . m ( ... )  with x class-typed
+    if len(rhs) >= 5 and rhs[0].k == 'id' and class_of(ctx, rhs[0].t) and ts[1] in ('.', '->') and rhs[2].k == 'id' and ts[3] == '(' and match_close(rhs, 3) == len(rhs) - 1:
+        sg = ctx.sigs.get('%s_%s' % (class_of(ctx, rhs[0].t), rhs[2].t))
+        if sg: return sg['ret'], False
+    # f ( ... )
+    if len(rhs) >= 3 and rhs[0].k == 'id' and ts[1] == '(' and match_close(rhs, 1) == len(rhs) - 1 and rhs[0].t in ctx.sigs:
+        return ctx.sigs[rhs[0].t]['ret'], False
+    return None
+
+def r_auto(ctx, toks):
+    """auto NAME = INIT;  ->  TYPE NAME = INIT;  when the type of INIT is mechanically known (iterator of a vector,
+    result of a method / function with a C prototype).  Anything else keeps 'auto' and is refused by the residual scan."""
+    out = []; i = 0; n = len(toks)
+    while i < n:
+        t = toks[i]
+        if t.k == 'id' and t.t == 'auto' and i + 3 < n and toks[i + 1].k == 'id' and toks[i + 2].t == '=':
+            j = i + 3; d = 0
+            while j < n and not (toks[j].t == ';' and d == 0):
+                if toks[j].k == 'punct' and toks[j].t in '([{': d += 1
+                elif toks[j].k == 'punct' and toks[j].t in ')]}': d -= 1
+                j += 1
+            rhs = toks[i + 3:j]
+            if len(rhs) == 5 and rhs[0].k == 'id' and rhs[0].t in ctx.env and ctx.env[rhs[0].t][0] in VEC_TYPES and [x.t for x in rhs[1:]] == ['.', 'begin', '(', ')']:
+                # iterator over a vector = position in that vector (r_iterators rewrites its uses)
+                if not hasattr(ctx, 'iters'): ctx.iters = {}
+                ctx.iters[toks[i + 1].t] = rhs[0].t
+                ctx.env[toks[i + 1].t] = ('size_t', False)
+                out.extend([Tok('id', 'size_t', t.ws), toks[i + 1], toks[i + 2], Tok('num', '0', ' ')])
+                i = j; fire(ctx, 'iterator-as-index'); continue
+            ty = _init_type(ctx, rhs)
+            if ty and ty[0] != 'void':
+                cty, ptr = ty
+                out.append(Tok('id', cty, t.ws))
+                if ptr: out.append(P('*', ' '))
+                ctx.env[toks[i + 1].t] = (cty, ptr)
+                i += 1; fire(ctx, 'auto-typed'); continue
+        out.append(t); i += 1
+    return out
+
+def r_iter_methods(ctx, toks):
+    """( * it ) . m ( args )  with it a pointer/iterator to a class value  ->  Cls_m(it, args)"""
+    out = []; i = 0; n = len(toks)
+    classes = ctx.unit.get('classes', ())
+    while i < n:
+        t = toks[i]
+        if t.t == '(' and i + 6 < n and toks[i + 1].t == '*' and toks[i + 2].k == 'id' and toks[i + 3].t == ')' and toks[i + 4].t == '.' \
+                and toks[i + 5].k == 'id' and toks[i + 6].t == '(' and toks[i + 2].t in ctx.env and ctx.env[toks[i + 2].t][1] \
+                and ctx.env[toks[i + 2].t][0] in classes and (not out or out[-1].k != 'id' or out[-1].t in ('return', 'if', 'while')):
+            c = ctx.env[toks[i + 2].t][0]
+            e = match_close(toks, i + 6)
+            out.append(Tok('id', resolve_overload(ctx, '%s_%s' % (c, toks[i + 5].t), toks[i + 7:e]), t.ws)); out.append(P('(', ''))
+            out.append(Tok('id', toks[i + 2].t, ''))
+            if e > i + 7: out.append(P(',', ''))
+            i += 7; fire(ctx, 'method-call-iter'); continue
+        out.append(t); i += 1
+    return out
+
+def r_call_index(ctx, toks):
+    """f ( ... ) [ idx ]  with f returning a class value that has operator[]  ->  (*NIX_NT_p(Cls_at(TMP_Cls(f(...)), idx)))"""
+    out = []; i = 0; n = len(toks)
+    classes = ctx.unit.get('classes', ())
+    while i < n:
+        t = toks[i]
+        if t.t == '[' and out and out[-1].t == ')':
+            o = match_open(out, len(out) - 1)
+            if o >= 1 and out[o - 1].k == 'id' and out[o - 1].t in ctx.sigs and ctx.sigs[out[o - 1].t]['ret'] in classes \
+                    and (ctx.sigs[out[o - 1].t]['ret'] + '_at') in ctx.sigs and (o < 2 or out[o - 2].t not in ('.', '->')):
+                c = ctx.sigs[out[o - 1].t]['ret']
+                e = match_close(toks, i)
+                call = out[o - 1:]
+                ws = call[0].ws; call[0].ws = ''
+                del out[o - 1:]
+                out.extend([P('(', ws), P('*', ''), Tok('id', 'NIX_NT_p', ''), P('(', ''), Tok('id', c + '_at', ''), P('(', ''), Tok('id', 'TMP_' + c, ''), P('(', '')])
+                out.extend(call); out.extend([P(')', ''), P(',', '')]); out.extend(toks[i + 1:e]); out.extend([P(')', ''), P(')', ''), P(')', '')])
+                i = e + 1; fire(ctx, 'class-index-call'); continue
+        out.append(t); i += 1
+    return out
+
+
+def r_iterators(ctx, toks):
+    """uses of an iterator IT that was initialised from V.begin() (now the index 'size_t IT = 0'):
+       (*IT).m(args) / IT->m(args) -> Cls_m(&V.data[IT], args);  *IT -> V.data[IT];  IT ==/!= V.end() -> IT ==/!= V.n;
+       ++IT / IT++ / --IT stay.  Any other use is refused."""
+    iters = getattr(ctx, 'iters', None)
+    if not iters:
+        return toks
+    out = []; i = 0; n = len(toks)
+    def elem(it, ws=''):
+        v = iters[it]; acc = '->' if ctx.env[v][1] else '.'
+        return [Tok('id', v, ws), P(acc, ''), Tok('id', 'data', ''), P('[', ''), Tok('id', it, ''), P(']', '')]
+    def cls_of_iter(it):
+        return VEC_ELEM[ctx.env[iters[it]][0]]
+    while i < n:
+        t = toks[i]
+        # ( * IT ) . m (
+        if t.t == '(' and i + 6 < n and toks[i + 1].t == '*' and toks[i + 2].t in iters and toks[i + 3].t == ')' and toks[i + 4].t == '.' and toks[i + 5].k == 'id' and toks[i + 6].t == '(':
+            it = toks[i + 2].t; e = match_close(toks, i + 6)
+            out.append(Tok('id', resolve_overload(ctx, '%s_%s' % (cls_of_iter(it), toks[i + 5].t), toks[i + 7:e]), t.ws)); out.append(P('(', '')); out.append(P('&', '')); out.extend(elem(it))
+            if e > i + 7: out.append(P(',', ''))
+            i += 7; fire(ctx, 'method-call-iter'); continue
+        # IT -> m (
+        if t.k == 'id' and t.t in iters and i + 3 < n and toks[i + 1].t == '->' and toks[i + 2].k == 'id' and toks[i + 3].t == '(':
+            it = t.t; e = match_close(toks, i + 3)
+            out.append(Tok('id', resolve_overload(ctx, '%s_%s' % (cls_of_iter(it), toks[i + 2].t), toks[i + 4:e]), t.ws)); out.append(P('(', '')); out.append(P('&', '')); out.extend(elem(it))
+            if e > i + 4: out.append(P(',', ''))
+            i += 4; fire(ctx, 'method-call-iter'); continue
+        # * IT   (prefix)
+        if t.t == '*' and i + 1 < n and toks[i + 1].t in iters and (not out or (out[-1].k == 'punct' and out[-1].t not in (')', ']'))):
+            out.extend(elem(toks[i + 1].t, t.ws)); i += 2; fire(ctx, 'iter-deref'); continue
+        # IT != V . end ( )   /  IT == V . end ( )
+        if t.k == 'id' and t.t in iters and i + 6 < n and toks[i + 1].t in ('!=', '==') and toks[i + 2].t == iters[t.t] and toks[i + 3].t == '.' \
+                and toks[i + 4].t in ('end', 'begin', 'cend', 'cbegin') and toks[i + 5].t == '(' and toks[i + 6].t == ')':
+            v = iters[t.t]; acc = '->' if ctx.env[v][1] else '.'
+            out.extend([t, toks[i + 1]])
+            if toks[i + 4].t in ('end', 'cend'):
+                out.extend([Tok('id', v, ' '), P(acc, ''), Tok('id', 'n', '')])
+            else:
+                out.append(Tok('num', '0', ' '))
+            i += 7; fire(ctx, 'iter-compare'); continue
+        if t.k == 'id' and t.t in iters:
+            prev = out[-1].t if out else ''
+            nxt = toks[i + 1].t if i + 1 < n else ''
+            if not (prev in ('++', '--', 'size_t') or nxt in ('++', '--')):
+                raise ExtractError('iterator %s used in a way the iterator-as-index rule does not cover' % t.t)
         out.append(t); i += 1
     return out
